@@ -16,7 +16,7 @@ DEFAULT = dict(
     weights=dict(ssink=3, ssinkc=1, csink=2, const=0.3, never=0.2, map=4, mapto=0.5, filter=2, filteropt=0.5,
                  merge=4, orelse=1.5, snapshot=3, snapshot1=0.7, snapshotn=0.5, gate=1, hold=2.5, once=1, updates=1,
                  value=1, mapc=1.5, lift2=2, liftn=0.5, accum=1.5, collect=1, defer=0, split=0, switchs=0, switchc=0,
-                 sloop=0, cloop=0, router=0, holdlazy=0),
+                 sloop=0, cloop=0, router=0, holdlazy=0, switchdyn=0),
     max_defer=1, leakcheck=False, malformed=False, values=(-5, 15), coalesce_sends=False,
 )
 
@@ -46,6 +46,8 @@ class Gen:
         self.coal = set()
         self.kinds = {}
         self.clone_of = {}
+        self.ident = {}                             # stream name -> identity of the underlying stream (updates() aliases)
+        self.ustream = {}                           # cell name -> identity of its update stream
         self.swc = set()                            # cells whose value derives from a switch_c result
 
     def fresh(self, pfx):
@@ -110,18 +112,18 @@ class Gen:
         elif kind == "gate" and s and c:
             n = self.fresh("s"); L.append(f"gate {n} {s} {c}"); self.add_stream(n, self.t(s))
         elif kind == "hold" and s:
-            n = self.fresh("c"); L.append(f"hold {n} {s} {self.small()}"); self.add_cell(n, self.t(s))
+            n = self.fresh("c"); L.append(f"hold {n} {s} {self.small()}"); self.add_cell(n, self.t(s)); self.ustream[n] = self.ident.get(s, s)
         elif kind == "holdlazy" and s:
             c0 = self.C()
             if c0 and c0 not in self.swc and not self.t(c0) and self.r.random() < 0.5:
                 z = self.fresh("z"); L.append(f"lazy {z} {c0}")      # the new cell starts with a Lazy shared with c0
             else:
                 z = self.fresh("z"); L.append(f"mklazy {z} {self.small()}")
-            n = self.fresh("c"); L.append(f"holdlazy {n} {s} {z}"); self.add_cell(n, self.t(s)); self.lazies.append(z)
+            n = self.fresh("c"); L.append(f"holdlazy {n} {s} {z}"); self.add_cell(n, self.t(s)); self.lazies.append(z); self.ustream[n] = self.ident.get(s, s)
         elif kind == "once" and s:
             n = self.fresh("s"); L.append(f"once {n} {s}"); self.add_stream(n, self.t(s))
         elif kind == "updates" and c:
-            n = self.fresh("s"); L.append(f"updates {n} {c}"); self.add_stream(n, self.t(c))
+            n = self.fresh("s"); L.append(f"updates {n} {c}"); self.add_stream(n, self.t(c)); self.ident[n] = self.ustream.get(c, "u:" + c)
         elif kind == "value" and c:
             n = self.fresh("s"); L.append(f"value {n} {c}"); self.add_stream(n, self.t(c))
         elif kind == "mapc" and c:
@@ -153,6 +155,9 @@ class Gen:
             # the selector counts for the loop rule too: a switch whose selector depends on its own output makes
             # the node graph cyclic (known finding D15)
             n = self.fresh("s"); L.append(f"switchs {n} {c} {' '.join(cs)}"); self.add_stream(n, self.t(c, *cs))
+        elif kind == "switchdyn" and c and s and not self.t(c) and not self.t(s) and self.ident.get(s, s) != self.ustream.get(c, "u:" + c):
+            # (the base must not be the selector's own update stream: known finding D16)
+            n = self.fresh("s"); L.append(f"switchdyn {n} {c} {s} {self.op()}"); self.add_stream(n, self.t(s))
         elif kind == "switchc" and c:
             cs = [self.C() for _ in range(r.randint(2, 4))]
             n = self.fresh("c"); L.append(f"switchc {n} {c} {' '.join(cs)}"); self.add_cell(n, self.t(c, *cs)); self.swc.add(n)
@@ -177,6 +182,20 @@ class Gen:
             n = self.fresh("K"); L.append(f"cloop {n}"); self.add_cell(n, {n}); self.open_cloops.append(n)
         if kind == "sloop" and self.r.random() < self.p.get("state_loops", 0.5) and self.S():
             return self.gen_state_loop(n)
+        if kind == "cloop" and self.r.random() < self.p.get("nested_cloops", 0.3):
+            # two cell loops, the outer one closed onto the inner one before the inner one is closed
+            m = self.fresh("K"); L.append(f"cloop {m}"); self.add_cell(m, {m})
+            u = self.fresh("c"); L.append(f"mapc {u} {n} {self.small()}"); self.add_cell(u, {n})
+            src = [c for c in self.cells if c not in self.dropped and not self.t(c)]
+            L.append(f"cloopclose {n} {m}")
+            if src:
+                t = self.r.choice(src)
+            else:
+                t = self.fresh("c"); L.append(f"const {t} {self.small()}"); self.add_cell(t)
+            L.append(f"cloopclose {m} {t}")
+            self.open_cloops.remove(n); self.retaint(n, set()); self.retaint(m, set())
+            L.append("end")
+            return True
         w = self.p["weights"]; saved = (w["sloop"], w["cloop"], w["switchc"]); w["sloop"] = w["cloop"] = 0
         if self.p.get("no_switchc_in_loop"): w["switchc"] = 0
         made = 0
@@ -343,6 +362,10 @@ class Gen:
                 x = r.choice(cands); y = self.fresh("s" if x in self.streams else "c"); L.append(f"clone {y} {x}")
                 (self.streams if x in self.streams else self.cells).append(y); self.taint[y] = set(self.taint.get(x, ()))
                 if x in self.swc: self.swc.add(y)
+                if x in self.ident: self.ident[y] = self.ident[x]
+                elif x in self.streams: self.ident[y] = x
+                if x in self.ustream: self.ustream[y] = self.ustream[x]
+                elif x in self.cells: self.ustream[y] = "u:" + x
         if r.random() < p["gcs"]: L.append("gc")
         if r.random() < p.get("memchecks", 0.0): L.append("memcheck")
         if r.random() < p.get("wfchecks", 0.0): L.append("wfcheck")
@@ -379,6 +402,21 @@ class Gen:
         for _ in range(r.randint(*p["n_txn"])):
             self.gen_txn()
             self.gen_between()
+        if p.get("periodic"):
+            # the same transaction pattern repeated; node count recorded at the same phase of every period
+            sinks = [x for x in self.ssinks + self.csinks if x not in self.dropped]
+            if sinks:
+                pattern = []
+                # cell sinks are what selectors hang off: (almost) every period switches every selector
+                for cs in [x for x in self.csinks if x not in self.dropped]:
+                    if r.random() < 0.85: pattern.append(f"send {cs} {self.val()}")
+                for _ in range(r.randint(0, 2)):
+                    pattern.append(f"send {r.choice(sinks)} {self.val()}")
+                if not pattern: pattern.append(f"send {r.choice(sinks)} {self.val()}")
+                for period in range(p["periodic"]):
+                    for k, l in enumerate(pattern):
+                        w = l.split(); self.lines.append(f"{w[0]} {w[1]} {int(w[2]) + period % 3}")
+                    self.lines.append("nodes")
         if p["malformed"]: self.malformed()
         if p["leakcheck"]: self.lines += ["leakcheck"]
         return self.lines
